@@ -264,6 +264,31 @@ type inst struct {
 	lastOK   bool
 	finals   []finalEvent
 	kinds    map[string]bool
+	// retained: every root the executor ever returned, as the very slice it returned and as a copy made at
+	// that moment (a node keeps the slice: State.AppHash, header.AppHash, prevStateRoot)
+	retained []retainedRoot
+}
+
+type retainedRoot struct {
+	slice, copy []byte
+	what        string
+}
+
+// retain records a returned root; stale reports a root that is no longer what it was when it was returned.
+func (in *inst) retain(root []byte, what string) {
+	if root != nil {
+		in.retained = append(in.retained, retainedRoot{slice: root, copy: append([]byte(nil), root...), what: what})
+	}
+}
+
+func (in *inst) stale() *world.Verdict {
+	for _, r := range in.retained {
+		if !bytes.Equal(r.slice, r.copy) {
+			v := world.Fail("C15/returned-root-changed-later", "instance %s: the root returned by %s was %s when it was returned and reads %s now: a later call wrote into the memory of a root the executor had already handed out", in.name, r.what, short(r.copy), short(r.slice))
+			return &v
+		}
+	}
+	return nil
 }
 
 type outcome struct {
@@ -284,6 +309,9 @@ func (in *inst) exec(a execArgs) (o outcome) {
 		}
 	}()
 	root, _, err := in.ex.ExecuteTxs(in.ctx, a.txs, a.height, a.ts, a.prev)
+	if err == nil {
+		in.retain(root, fmt.Sprintf("ExecuteTxs(height %d)", a.height))
+	}
 	return outcome{root: root, err: err}
 }
 
@@ -294,6 +322,9 @@ func (in *inst) init() (o outcome) {
 		}
 	}()
 	root, _, err := in.ex.InitChain(in.ctx, genesisTime, 1, chainID)
+	if err == nil {
+		in.retain(root, "InitChain")
+	}
 	return outcome{root: root, err: err}
 }
 
@@ -626,6 +657,11 @@ func run(sc Scenario, needFinal bool) world.Verdict {
 		}
 		for i, op := range blk.B {
 			if v := w.side(w.b, op, bi, fmt.Sprintf("after block %d, op %d", bi, i)); v != nil {
+				return *v
+			}
+		}
+		for _, in := range []*inst{w.a, w.b} {
+			if v := in.stale(); v != nil {
 				return *v
 			}
 		}
